@@ -26,6 +26,7 @@ import (
 	"math/rand"
 	"os"
 	"path/filepath"
+	"runtime/pprof"
 	"sort"
 	"strconv"
 	"strings"
@@ -180,9 +181,10 @@ func exists(p string) bool { _, err := os.Stat(p); return err == nil }
 
 // what a freshly started server makes of the files in dir (a copy is loaded, the original is untouched)
 func serverLoad(mainPath string, name string, scratch string) [][2]int {
-	os.RemoveAll(scratch)
 	os.MkdirAll(scratch, 0o755)
 	base := filepath.Join(scratch, "swamp")
+	os.Remove(base + ".hyd")
+	os.Remove(base + ".hyd.compact")
 	copyFile(mainPath, base+".hyd")
 	copyFile(mainPath+".compact", base+".hyd.compact")
 	c := chronicler.NewV2WithName(base, 10, name)
@@ -276,7 +278,7 @@ type absState struct {
 	opened bool
 	fresh  bool
 	pend   []byte // a complete block header whose payload has not been written yet
-	torn   bool
+	torn   int // 1: a block header is incomplete, 2: a block's payload is incomplete
 }
 
 // apply operation o (only the first n bytes of its data when n >= 0) and emit the spec-level events
@@ -329,7 +331,7 @@ func (st *absState) apply(o opRec, n int, emit func(ev)) {
 			if full {
 				st.pend = o.Data
 			} else if ln > 0 {
-				st.torn = true
+				st.torn = 1
 			}
 		case st.pend != nil && o.Off == st.flen:
 			if full {
@@ -350,8 +352,8 @@ func (st *absState) apply(o opRec, n int, emit func(ev)) {
 					emit(ev{"ev": "write", "ents": ents})
 				}
 				st.pend = nil
-			} else {
-				st.torn = true
+			} else if ln > 0 {
+				st.torn = 2
 			}
 		default:
 			emit(ev{"ev": "unknown", "why": fmt.Sprintf("write of %d bytes at %d (file length %d)", len(o.Data), o.Off, st.flen)})
@@ -412,17 +414,19 @@ func (im *images) apply(o opRec, n int) {
 }
 
 func (im *images) write(dir string, power bool) string {
-	os.RemoveAll(dir)
 	os.MkdirAll(dir, 0o755)
 	mp := filepath.Join(dir, "swamp.hyd")
 	put := func(p string, f fileImg) {
 		if power {
 			if f.dex {
 				os.WriteFile(p, f.d, 0o644)
+				return
 			}
 		} else if f.ex {
 			os.WriteFile(p, f.b, 0o644)
+			return
 		}
+		os.Remove(p)
 	}
 	put(mp, im.main)
 	put(mp+".compact", im.temp)
@@ -440,16 +444,17 @@ type runInfo struct {
 }
 
 type scenarioRun struct {
-	sc      Scenario
-	rng     *rand.Rand
-	dir     string
-	main    string
-	images  int
-	follows int
-	harm    []string // places where the observed state differs from the reference map (reporting only)
-	ref     map[int]int
-	issued  int
-	notes   []string
+	sc            Scenario
+	rng           *rand.Rand
+	dir           string
+	main          string
+	images        int
+	follows       int
+	brokenFollows int
+	harm          []string // places where the observed state differs from the reference map (reporting only)
+	ref           map[int]int
+	issued        int
+	notes         []string
 }
 
 func (s *scenarioRun) refPairs() [][2]int {
@@ -479,8 +484,12 @@ func (s *scenarioRun) observe(e ev, mainPath string, where string) {
 	after, failed := loadIndexOf(mainPath)
 	e["after"], e["after_err"] = after, failed
 	e["temp_ex"] = exists(mainPath + ".compact")
-	srv := serverLoad(mainPath, s.sc.Name, filepath.Join(s.dir, "srv"))
-	e["srv"], e["srv_ok"] = srv, true
+	srv := [][2]int{}
+	if !failed {
+		// (an unreadable swamp file is not loaded a second time: the reader may allocate gigabytes on it, see C04)
+		srv = serverLoad(mainPath, s.sc.Name, filepath.Join(s.dir, "srv"))
+	}
+	e["srv"], e["srv_ok"] = srv, !failed
 	want := s.refPairs()
 	if failed {
 		s.harm = append(s.harm, where+": swamp file unreadable")
@@ -579,10 +588,21 @@ func (s *scenarioRun) emitRun(ri *runInfo, endObs func(e ev)) {
 				imgDir := filepath.Join(s.dir, "img")
 				mp := im2.write(imgDir, power)
 				s.images++
-				e := ev{"ev": "crash", "power": power, "torn": !power && (st2.torn || st2.pend != nil)}
+				torn := st2.torn
+				if torn == 0 && st2.pend != nil {
+					torn = 1 // a complete block header without a single payload byte reads as the end of the file
+				}
+				if power {
+					torn = 0
+				}
+				e := ev{"ev": "crash", "power": power, "torn": torn}
 				s.observe(e, mp, fmt.Sprintf("crash image op=%d bytes=%d power=%v of run %s", i, c.n, power, ri.ep))
 				tw.Emit(e)
-				if s.sc.Follow > 0 && s.rng.Intn(100) < s.sc.Follow {
+				broken := exists(mp+".compact") && (st2.torn > 0 || st2.pend != nil || st2.hdr == 1)
+				if s.sc.Follow > 0 && s.rng.Intn(100) < s.sc.Follow && (!broken || s.brokenFollows < 2) {
+					if broken {
+						s.brokenFollows++ // (each of these leaves an unreadable swamp file, which is expensive to load)
+					}
 					s.follows++
 					s.followUp(mp)
 				}
@@ -742,12 +762,14 @@ func (s *scenarioRun) placeStale() ev {
 		os.WriteFile(tp, b[:v2.FileHeaderSize+s.rng.Intn(len(s.sc.Name))], 0o644)
 		return ev{"ex": true, "hdr": 1, "ents": [][2]int{}}
 	case "torn":
-		n := int(whole) + 1 + s.rng.Intn(v2.BlockHeaderSize-1)
+		n := int(whole) + 1 + s.rng.Intn(v2.BlockHeaderSize) // 1..16 bytes of the block header, no payload
+		mark := [2]int{0, 1}
 		if sl.Tear == "payload" {
-			n = int(whole) + v2.BlockHeaderSize + s.rng.Intn(len(b)-int(whole)-v2.BlockHeaderSize)
+			n = int(whole) + v2.BlockHeaderSize + 1 + s.rng.Intn(len(b)-int(whole)-v2.BlockHeaderSize-1)
+			mark = [2]int{0, 2}
 		}
 		os.WriteFile(tp, b[:n], 0o644)
-		return ev{"ex": true, "hdr": 2, "ents": append(append([][2]int{}, ents...), [2]int{0, 0})}
+		return ev{"ex": true, "hdr": 2, "ents": append(append([][2]int{}, ents...), mark)}
 	}
 	return ev{"ex": true, "hdr": 2, "ents": ents}
 }
@@ -993,6 +1015,11 @@ func main() {
 		os.Exit(3)
 	}
 	slog.SetDefault(slog.New(slog.NewTextHandler(io.Discard, nil)))
+	if pf := os.Getenv("VERIF_CPUPROFILE"); pf != "" {
+		f, _ := os.Create(pf)
+		pprof.StartCPUProfile(f)
+		defer pprof.StopCPUProfile()
+	}
 	var scs []Scenario
 	raw, err := os.ReadFile(os.Args[2])
 	if err != nil {
